@@ -259,7 +259,9 @@ def _node_mode(V, E, variants, key, viol, nt, tags):
     VV = [v + "|i" for v in V] + [v + "|o" for v in V]
     EE = [(v + "|i", v + "|o") for v in V] + [(u + "|o", v + "|i") for (u, v) in E]
     free = set(range(len(V), len(EE)))
+    from .. import runner
     for vname, nwv in variants:
+        runner.kick()
         c2 = {"nodes": V, "arcs": [[u, v, None] for (u, v) in E], "node_w": nwv}
         ff = [nwv[v] for v in V] + [0] * len(E)
         best, bx = closest_flow(VV, EE, ff, [1] * len(EE), free, set(), set(), F=max(ff) + 1)
